@@ -183,7 +183,7 @@ def gen_script(rng, manager, maxlen=40):
     kind = rng.choice(["numbers", "names", "objects"])
     named = kind != "numbers"
     vmap = {}
-    pool_vals = [0, 0, 1, 2, 3, 3, 5, 8, 13, 0.5, 2.25, 20]
+    pool_vals = [0, 0, 1, 2, 3, 3, 5, 8, 13, 0.5, 2.25, 20, 2 ** 40, 10 ** 12 + 1]   # all sums stay exact in float64 (<= 40 integer bits + 2 fractional bits)
     cnt = [0]
 
     def new_item():
